@@ -40,7 +40,8 @@ LEVEL_TEXT = ('Every DAG shape up to the node bound is built by the real '
               'structural equality with a reference build are checked on each.')
 LEVEL_NOTE = ('Trusted: vfx recording callables and LOG, mc.canon, the '
               'reference builder in this file. Bounds: N<=3 full menu / N<=4 '
-              'reduced menu (quick), N<=4 full / N<=5 reduced (thorough).')
+              'reduced menu (quick); N<=3 full with two leaves, N<=4 reduced with '
+              'two leaves, N<=5 smallest menu (thorough).')
 
 MENUS = {
     'full': ['cfg', 'cfgb', 'par', 'list1', 'list2', 'tuple2', 'dict2', 'nt',
@@ -58,8 +59,8 @@ def bounds(tier):
     return {'plans': [['full', 3, 1], ['mid', 4, 1], ['tagged', 4, 1],
                       ['nt', 3, 1]],
             'chains': [50, 150]}
-  return {'plans': [['full', 3, 2], ['full', 4, 1], ['small', 5, 1],
-                    ['tagged', 4, 2], ['nt', 4, 1]],
+  return {'plans': [['full', 3, 2], ['mid', 4, 2], ['small', 5, 1],
+                    ['tagged', 4, 2], ['nt', 3, 2]],
           'chains': [50, 150, 250]}
 
 
